@@ -9,8 +9,9 @@ LEVEL = "proof"
 TITLE = "Stores are safe under concurrent use: linearizable, no crash/deadlock/lost mail"
 LEVEL_TEXT = ("partial: Coq theorems over a small-step interleaving model of both stores' locking / rendezvous protocol "
               "(no crash incl. the size enforcer, deadlock freedom, linearizability of the memory store — with and without size "
-              "limit, evictions as enforcer commits — and of the file store by forward simulation, distinct ids, "
-              "delivered-stays-unless-removed) + forced-schedule "
+              "limit, evictions as enforcer commits — and of the file store by forward simulation, distinct ids, every "
+              "non-walk operation commits exactly once, delivered-stays-unless-removed [memory store WITHOUT cap and size limit "
+              "only; for every cap and limit: present-stays-unless-removed-or-evicted; no file-store counterpart]) + forced-schedule "
               "correspondence on the real stores; data-race freedom in the Go memory-model sense and runtime deadlocks are "
               "sampled by a -race stress run (thorough tier), not proved; the runner's oracle judges every finished "
               "execution: without size limit by the sequential specification seq_exec, with the size limit by the "
@@ -48,7 +49,9 @@ LEVEL_NOTE = ("SCAN STREAM: the retention scanner is a client of the store, not 
               "block unexpectedly) are completed under control and judged too. "
               "The model cuts every operation into the atomic sections between verifhook.Point sites; Go's mutexes, channels and "
               "scheduler are modelled (atomic sections, unbuffered rendezvous), not verified; the file store's message cap is "
-              "outside the concurrency model. ASSUMED by the file model, not observable at hook granularity: an operation holds "
+              "outside the concurrency model — concrete consequence: with cap 1 a delivery to a non-empty mailbox removes the "
+              "index, the mailbox directory and its empty parents and then re-creates them, so a walk can transiently miss a "
+              "mailbox that holds mail before and after the delivery; file_visit_sees_stable_mailboxes does not cover that case. ASSUMED by the file model, not observable at hook granularity: an operation holds "
               "its bucket lock from before its index read to after its index commit (there is no hook site between lock "
               "acquisition and the first file-system mutation, so forced schedules cannot enter such a gap). This is CHECKED on "
               "every run by the free-running streams instead: 'burst' (three goroutines, one operation each, on one lock bucket, "
@@ -81,6 +84,9 @@ ASSUMPTIONS = [
 ]
 NOT_PROVED = [
     "conc_sequential_is_memstore_limit_stmt (Proofs/ConcC07Seq.v): non-overlapping runs WITH the size limit answer as C07's run_mem for ALL histories — proved for histories of deliveries, reads and mark-seen without cap (conc_sequential_is_memstore_limit_partial: the eviction loop against MemStore.evict_loop); missing: the removal notices (RemoveMessage, PurgeMessages, cap evictions with the limit), where the model looks a message up in the enforcer's book by its tag (object identity) and C07's model by (mailbox, id) — needs distinct tags and 'every live message is registered' as invariants; checked meanwhile by forced-schedule correspondence and the qstep oracle",
+    "mem_quiescent_accounting_stmt (Proofs/ConcStmts.v; audit item 4): at all_done, for every cap, limit and schedule, the enforcer's book is exactly the live messages, curSize their total, total <= max — NOT proved (one-sided invJ and the sequential case only); needs two-sided accounting + a linear-ownership invariant for tags; the runner evaluates it on the model's final state of every forced schedule with a size limit (fail:model-quiescence-statement-refuted)",
+    "concmem_refines_qstep_stmt (Proofs/ConcStmts.v): ConcMem refines the sub-action specification qstep used by the size-limit oracle — NOT proved; mem_linearizable_with_enforcer says only that evictions are removals committed by the enforcer, it does not constrain WHICH messages are evicted or when",
+    "mem_terminates_stmt / file_terminates_stmt (Proofs/ConcStmts.v; audit item 5, 'every operation completes'): the number of productive steps of any schedule of the models is bounded — NOT proved; deadlock freedom only says that some party can always move; on the real stores completion is observed under deadlines (forced schedules, fault and scan families)",
 ]
 EXEC_TIMEOUT = {"quick": 600, "thorough": 7200}
 
